@@ -85,6 +85,7 @@ def unit_sets(tier, seed):
         yield "tree(CORE,3)", B.tree(B.CORE, 3), c1
         yield "tree(CORE,4)@default", B.tree(B.CORE, 4, min_len=4), [("-greedy",)]
         yield "tree(MIXED,3)", B.tree(B.MIXED, 3), c1
+        yield "tree(CORE,3)@smt", B.tree(B.CORE, 3), [(), ("-ub-greedy",)]
         yield "rule-families", families.rule_family(level=1), [("-greedy",)]
         yield "mem-families", families.mem_family(k=2), [("-greedy",), ("-storage", "-greedy"),
                                                          ("-partition", "-greedy"), ("-no-simplification", "-greedy")]
@@ -95,6 +96,9 @@ def unit_sets(tier, seed):
         yield "rule-families", families.rule_family(level=2), c2
         yield "mem-families", families.mem_family(k=3), c2
         yield "tree(CORE,5)@default", B.tree(B.CORE, 5, min_len=5), [("-greedy",), ("-greedy", "-size")]
+        yield "tree(CORE,4)@smt", B.tree(B.CORE, 4), [(), ("-ub-greedy",), ("-size",), ("-ub-greedy", "-length"),
+                                                      ("-solver", "z3"), ("-storage",)]
+        yield "tree(MIXED,3)@smt", B.tree(B.MIXED, 3), [(), ("-ub-greedy",), ("-size", "-ub-greedy")]
 
 
 def main(tier, seed, only=None):
@@ -105,7 +109,8 @@ def main(tier, seed, only=None):
                        "non-trivial = distinct (block, option set) whose emitted block differs from the input")
     chk.assumptions = ["equivalence modulo gas metering (GAS yields a token; gas exhaustion not modelled)",
                        "MSIZE and PC outside the alphabets", "states touching memory >= 2^32 are excluded (oog)",
-                       "back-end: greedy (Max-SMT with the stand-in solver is exercised by C06/C07)"]
+                       "back-ends: greedy, and Max-SMT / -ub-greedy with the stand-in solver (mc/standin.py: the model "
+                       "enumerator answering with a minimum-penalty model for init_progr_len <= 5, 'no model' beyond)"]
     stats = {"blocks": 0, "changed": 0, "raised": 0, "timeouts": 0, "states": 0, "oog": 0, "cand_rejected": 0}
     per_set = {}
 
